@@ -129,16 +129,6 @@ func c34PbReads(fns []*ssa.Function) map[*types.Var]bool {
 	return out
 }
 
-// c34LastComp returns the last component of a canonical access path and whether
-// the path is a recognisable parameter/field path at all.
-func c34LastComp(v ssa.Value) (string, bool) {
-	p := an.PathOf(v)
-	if !(strings.HasPrefix(p, "p:") || strings.HasPrefix(p, "local:")) || !strings.Contains(p, ".") {
-		return "", false
-	}
-	return p[strings.LastIndex(p, ".")+1:], true
-}
-
 // c34MapOfField: v is a load of field fld (a map) of some object.
 func c34MapOfField(v ssa.Value, fld *types.Var) bool {
 	u, ok := v.(*ssa.UnOp)
@@ -369,7 +359,7 @@ func runC34(c *an.Ctx) {
 							undecided = append(undecided, undec{fn, cons})
 							continue
 						}
-						last, rec := c34LastComp(an.Recv(call))
+						last, rec := an.LastComp(an.Recv(call))
 						if !rec {
 							undecided = append(undecided, undec{fn, cons})
 							continue
@@ -377,7 +367,7 @@ func runC34(c *an.Ctx) {
 						c.Check(last == "Cid", "O2", "R-TABLE", name, cons, s.Pos(), "Block = entry.Cid.Bytes()",
 							"wire field Block is encoded from "+an.PathOf(an.Recv(call))+" instead of the entry's Cid")
 					case sn == "Message_Wantlist_Entry":
-						last, rec := c34LastComp(s.Val)
+						last, rec := an.LastComp(s.Val)
 						if !rec {
 							undecided = append(undecided, undec{fn, cons})
 							continue
